@@ -33,10 +33,10 @@ fn setup(ctx: &mut Ctx) {
 
 fn strata(t: Tier) -> Vec<Stratum> {
     vec![
-        st("well-formed", scale(t, 3_000, 300_000, 6)),
-        st("corrupted-tables", scale(t, 6_000, 600_000, 6)),
+        st("well-formed", scale(t, 150_000, 1_500_000, 6)),
+        st("corrupted-tables", scale(t, 300_000, 3_000_000, 6)),
         ex("hash-fn-short-strings", 1),
-        st("hash-fn-random", scale(t, 20_000, 2_000_000, 50)),
+        st("hash-fn-random", scale(t, 1_000_000, 10_000_000, 50)),
     ]
 }
 
